@@ -54,10 +54,10 @@ impl<T: Debug> WorkStealQueue<T> {
 
     /// Push an element to the global queue.
     pub fn push(&self, item: T) {
+        // add count first and atomically: concurrent pushes/pops must not lose an update,
+        // and the counter must never be below the number of items held
+        _ = self.len.fetch_add(1, Ordering::Release);
         self.shared_queue.push(item);
-        //add count
-        self.len
-            .store(self.len().saturating_add(1), Ordering::Release);
     }
 
     /// Pop an element from the global queue.
@@ -70,8 +70,7 @@ impl<T: Debug> WorkStealQueue<T> {
             match self.shared_queue.steal() {
                 Steal::Success(item) => {
                     // Decrement the count.
-                    self.len
-                        .store(self.len().saturating_sub(1), Ordering::Release);
+                    _ = self.len.fetch_sub(1, Ordering::Release);
                     return Some(item);
                 }
                 Steal::Retry => {}
